@@ -61,6 +61,15 @@ func canonHist(r *rng, n int, edges [][2]int, retries []int) []Call {
 		}
 	}
 	for t, x := range retries {
+		// the number of retries set last is the one that counts: sometimes an earlier, different call comes first
+		if r.chance(1, 8) {
+			if other := r.intn(4); other != x {
+				h = append(h, Call{Op: "retries", A: t, R: other})
+				if x == 0 {
+					h = append(h, Call{Op: "retries", A: t, R: 0})
+				}
+			}
+		}
 		if x != 0 {
 			h = append(h, Call{Op: "retries", A: t, R: x})
 		}
@@ -513,6 +522,7 @@ func init() {
 				edges := randomDag(r, n, r.intn(30))
 				plan, retries := randomPlan(r, n, 10)
 				spec = &Spec{N: n, Hist: canonHist(r, n, edges, retries), Plan: plan, Policy: "eager", HoldUS: 50 + r.intn(150), NGraphs: 2 + r.intn(3), PSeed: r.u64()}
+				spec.ViaLookup = idx%3 == 0
 				if r.chance(1, 2) {
 					spec.MaxPar = 1 + r.intn(2)
 				}
@@ -565,7 +575,7 @@ func init() {
 		Race:          true,
 		WorkersPerCPU: 3,
 		Technique:     "runtime monitoring under the Go race detector: invariant at the scheduler's idle-tick hook (fixpoint = deadlock, decided in logical time), bounded-progress watchdog, work-conservation check at fresh quiescent points, cycle/definition-error rule and topological check of DepthFirstSort, all on real graphs built by public-API call histories",
-		Rule: "construction histories over 3 tasks: ALL call sequences of length <= 4 (thorough: <= 5 sampled exhaustively by index) over {AddTask(x), TaskDependsOn(x,y), TaskRetries(x,r)} incl. re-adding known tasks before/after they got edges, duplicate edges, self edges, cycles, nil tasks, edges declared before AddTask; every history is run to completion or to a verdict under all outcomes ok and under random outcome plans, orders by DFS (small) or PRNG; " +
+		Rule: "construction histories over 3 tasks: ALL call sequences of length <= 4 (thorough: <= 5 sampled exhaustively by index) over {AddTask(x), TaskDependsOn(x,y), TaskDependsOn(x,y,z), TaskRetries(x,1), TaskRetries(x,0)} incl. re-adding known tasks before/after they got edges, duplicate edges, self edges, cycles, nil tasks, edges declared before AddTask; every history is run to completion or to a verdict under all outcomes ok and under random outcome plans, orders by DFS (small) or PRNG; " +
 			"random DAGs up to 12 vertices (with retries, failing scripts and cancellation points, DepthFirstSort called while the graph is still being built, a failing output writer) for work conservation and bounded progress; distinct = (history, plan, mode); non-trivial = the history re-adds a task, duplicates an edge, contains a cycle or has at least one edge",
 		Assumptions: common,
 		Cases: func(tier string) int {
@@ -687,8 +697,8 @@ func init() {
 	})
 }
 
-// history alphabet over 3 tasks: add(x) [3], dep(x,y) [9 incl. self edges], retries(x,1) [3], dep(x,y,z) with two deps [6]
-const nHistCalls = 3 + 9 + 3 + 6
+// history alphabet over 3 tasks: add(x) [3], dep(x,y) [9 incl. self edges], retries(x,1) [3], dep(x,y,z) with two deps [6], retries(x,0) [3]
+const nHistCalls = 3 + 9 + 3 + 6 + 3
 
 func histCall(k int) Call {
 	switch {
@@ -699,6 +709,9 @@ func histCall(k int) Call {
 		return Call{Op: "dep", A: k / 3, B: []int{k % 3}}
 	case k < 15:
 		return Call{Op: "retries", A: k - 12, R: 1}
+	}
+	if k >= 21 {
+		return Call{Op: "retries", A: k - 21, R: 0} // a later call with 0 takes an earlier count back
 	}
 	k -= 15
 	a := k / 2
